@@ -585,6 +585,47 @@ def _wiring(run, PV, fw, D):
                     run.check("R4", got == {_strip(ww)}, f"{pc.name}: {k} <- {ww}", key=f"{pc.name}._sign|sign_unauthorized|{k}", where=m.loc(c),
                               message=f"{pc.name}: sign_unauthorized({k}=...) receives {sorted(got)[:1]}, expected `{ww}`")
     run.floor("R4", "wired arguments", n, 12)
+    # the request reaches _sign as the client sent it: between parsing and the device call nothing stores into the request object or one of its
+    # sub-objects, except the documented key id parse (request['keyId'] = BIP32Path(request['keyId']))
+    from sa.atoms import PathEnv
+    scanned, seen_fn = 0, set()
+    MUT = {"update", "pop", "setdefault", "clear", "popitem", "__setitem__", "__delitem__", "append", "extend", "insert", "remove", "sort", "reverse"}
+    for pc in protocol_classes(run):
+        for c_ in pc.mro():
+            for mname, m in sorted(getattr(c_, "methods", {}).items()):
+                if m.qualname in seen_fn or "request" not in m.params:
+                    continue
+                seen_fn.add(m.qualname)
+                scanned += 1
+                env = PathEnv(A, m, {"request": ()}, pc)
+                for n_ in A.own_nodes(m):
+                    tgts = []
+                    if isinstance(n_, ast.Assign):
+                        tgts = [t for t in n_.targets]
+                    elif isinstance(n_, (ast.AugAssign, ast.AnnAssign)):
+                        tgts = [n_.target]
+                    elif isinstance(n_, ast.Delete):
+                        tgts = list(n_.targets)
+                    elif isinstance(n_, ast.Call) and isinstance(n_.func, ast.Attribute) and n_.func.attr in MUT:
+                        p_ = env.path_of(n_.func.value)
+                        if p_ is not None:
+                            run.fail("R4", f"{m.qualname}|request-mutated|{n_.func.attr}", m.loc(n_),
+                                     f"{m.qualname} calls .{n_.func.attr}() on the client's request ({'.'.join(p_) or 'request'}): what is relayed to the device is "
+                                     "no longer what the client sent")
+                        continue
+                    for t in tgts:
+                        for x in (t.elts if isinstance(t, (ast.Tuple, ast.List)) else [t]):
+                            if not isinstance(x, ast.Subscript):
+                                continue
+                            p_ = env.path_of(x.value)
+                            if p_ is None:
+                                continue
+                            full = env.path_of(x)
+                            okw = full == ("keyId",) and isinstance(n_, ast.Assign) and norm(n_.value) == "BIP32Path(request['keyId'])"
+                            run.check("R4", okw, "the only store into the request is the key id parse", key=f"{m.qualname}|request-mutated|{'.'.join(full or p_)}",
+                                      where=m.loc(n_), message=f"{m.qualname} rewrites the client's request field `{'.'.join(full or p_) or 'request'}` "
+                                      f"(`{norm(n_)[:80]}`): the value relayed to the device is no longer the one the client sent")
+    run.floor("R4", "request-handling methods scanned for stores into the request", scanned, 20)
     sm = P.enum_members(P.cls("ledger.hsm2dongle.SighashComputationMode"))
     cm = fw.file("powhsm/src/auth_tx.h").all_enum_members()
     for py, (val, c) in {"LEGACY": ("legacy", "SIGHASH_COMPUTE_MODE_LEGACY"), "SEGWIT": ("segwit", "SIGHASH_COMPUTE_MODE_SEGWIT")}.items():
